@@ -147,7 +147,7 @@ class C11(RunProp):
         ref = refeval.eval_graph(program, len(program) - 1, provided, Env(), failing_dead=True)
         tag = err.split(":", 1)[1]
         all_failed = set(_all_failed(program, provided))
-        if tag not in {pre + f for f in all_failed for pre in ("E_", "Z_")}:
+        if tag not in {pre + f for f in all_failed for pre in ("E_", "Z_", "S_")}:
             return f"surfaced error {err} does not belong to a node that ran and failed ({sorted(all_failed)})"
         if obs["raised"]:
             return None
